@@ -61,7 +61,7 @@ FORMATS = ["csc", "csr", "coo", "lil", "dia"]
 def cases(seed, tier):
     rng = random.Random(seed * 15485863 + 8)
     quick = tier == "quick"
-    n_tri, n_flat, n_poly, n_vol, n_graph = (220, 40, 30, 64, 46) if quick else (14000, 2400, 1200, 4400, 2000)
+    n_tri, n_flat, n_poly, n_vol, n_graph = (220, 40, 30, 64, 46) if quick else (36000, 6000, 3000, 11000, 4000)
     out = []
     # anchors: the smallest inputs of each kind (one element, two elements, smallest closed surface), every history
     for h in ("fresh", "shared", "angles"):
@@ -75,7 +75,7 @@ def cases(seed, tier):
     ir = ["list", "tuple", "npint", "nprow"]
     for i in range(n_tri):
         big = i % 3 == 0  # a third of the surfaces: at least 20 faces and a border (the non-trivial class of RULE)
-        out.append({"gen": "tri", "seed": rng.randrange(2 ** 31), "max_size": [6, 4, 8][i % 3] if quick else [8, 4, 10, 6][i % 4],
+        out.append({"gen": "tri", "seed": rng.randrange(2 ** 31), "max_size": [6, 4, 8][i % 3] if quick else [8, 4, 12, 6][i % 4],
                     "generic": i % 2 == 0, "history": hist[i % 4], "vrows": vr[i % 4], "irows": ir[(i // 4) % 4],
                     "closed": False if big else [None, None, False, True][(i // 2) % 4], "min_faces": 20 if big else 1, "fmt": FORMATS[i % 5]})
     for i in range(n_flat):
@@ -148,7 +148,7 @@ def _row_sums(ctx, monitor, L, rel, op="row_sum", **w):
     bad = ~(np.abs(s) <= tol)
     i = int(np.argmax(np.where(bad, np.abs(np.nan_to_num(s, nan=np.inf)), -1))) if bad.any() else -1
     return ctx.check(not bad.any(), monitor, op, "row_sum_nonzero", "rows do not sum to zero (constants are not in the kernel)",
-                     row=i, row_sum=float(s[i]) if i >= 0 else 0.0, row_norm1=float(np.abs(L[i]).sum()) if i >= 0 else 0.0, **w)
+                     row=i, row_sum_abs=float(np.abs(s[i])) if i >= 0 else 0.0, row_norm1=float(np.abs(L[i]).sum()) if i >= 0 else 0.0, **w)
 
 
 def _positive_diagonal(ctx, monitor, op, D, **w):
@@ -743,7 +743,7 @@ def _verify_gradient(ctx, name, r, V, F, tg, L, K, AF, avec, bs, rel):
 def _poly_case(ctx, desc):
     import mouette as M
     O = M.operators
-    z = surfaces.make(desc["seed"], poly_only=True, max_size=desc["max_size"])
+    z = _zoo(ctx, surfaces.make, desc["seed"], poly_only=True, max_size=desc["max_size"])
     V, F = np.asarray(z["V"], float), z["F"]
     nV = len(V)
     rng = random.Random(desc["seed"] ^ 0xC08)
@@ -780,7 +780,7 @@ def _vol_case(ctx, desc):
         Va, Ca, na = volumes.anchors({"one_tet": 0, "two_tets": 1}[desc["anchor"]])
         z = {"V": Va, "C": [list(map(int, c)) for c in Ca], "cls": na}
     else:
-        z = volumes.make(desc["seed"], max_size=desc["max_size"], jitter=desc["jitter"])
+        z = _zoo(ctx, volumes.make, desc["seed"], max_size=desc["max_size"], jitter=desc["jitter"])
     V, C = np.asarray(z["V"], float), z["C"]
     nV, nC = len(V), len(C)
     rng = random.Random(desc["seed"] ^ 0xC08)
@@ -901,6 +901,19 @@ def _graph_case(ctx, desc):
 
 
 # ----------------------------------------------------------------------------- entry
+def _zoo(ctx, fn, seed, **kw):
+    """Draws from a zoo generator; a generator failure (e.g. surfaces.make(generic=True) on a draw that came out empty) is
+    retried with a derived seed, deterministically, and noted."""
+    last = None
+    for k in range(6):
+        try:
+            return fn((seed + 7919 * k) % (2 ** 31), **kw)
+        except Exception as e:  # noqa  (generator-side, never mouette)
+            last = e
+            ctx.note("zoo_draw_failed_and_redrawn")
+    raise last
+
+
 def run_case(desc, ctx):
     g = desc["gen"]
     ctx.cls("kind:" + g)
@@ -917,11 +930,11 @@ def run_case(desc, ctx):
         z = {"V": np.asarray(V, float), "F": [list(map(int, f)) for f in F], "cls": a, "topo": topo.analyse(len(V), F)}
         _tri_case(ctx, desc, z, flat=False)
     elif g == "tri":
-        z = surfaces.make(desc["seed"], tri_only=True, generic=desc["generic"], max_size=desc["max_size"], closed=desc.get("closed"),
+        z = _zoo(ctx, surfaces.make, desc["seed"], tri_only=True, generic=desc["generic"], max_size=desc["max_size"], closed=desc.get("closed"),
                           min_faces=desc.get("min_faces", 1))
         _tri_case(ctx, desc, z, flat=False)
     elif g == "flat":
-        z = c08_inputs.planar(desc["seed"], max_size=desc["max_size"], generic=desc["generic"], min_faces=desc.get("min_faces", 1))
+        z = _zoo(ctx, c08_inputs.planar, desc["seed"], max_size=desc["max_size"], generic=desc["generic"], min_faces=desc.get("min_faces", 1))
         _tri_case(ctx, desc, z, flat=True)
     elif g == "poly":
         _poly_case(ctx, desc)
